@@ -279,10 +279,10 @@ def gen_config():
             for _ in range(3):
                 st += [act("advance", ms=T // 4), act("send")]
             st += [act("advance", ms=T // 20), p("hbt")]
-        for _ in range(2):
-            for k in range(5):
+        for nsend in (5, 3):     # (the second time fewer: nothing is sent once the silent peer has been disconnected)
+            for k in range(nsend):
                 st += [act("advance", ms=T // 4), act("send")]
-            st += [act("advance", ms=tin + tin // 10 + 1 - 5 * (T // 4))]
+            st += [act("advance", ms=tin + tin // 10 + 1 - nsend * (T // 4))]
         c = cfg("acceptor", hbmin=1, hbmax=60)
         c["imposeHb"] = impose
         out.append(dict(id="cfg-impose-%d-%d" % (ask, impose), cfg=c, steps=st))
